@@ -12,7 +12,7 @@ import posixpath
 
 FAILING = {"NOTFOUND", "ERR_BEFORE", "ERR_MID", "ERR_AFTER", "HTTP_404", "HTTP_5XX", "CONN_ERR", "TIMEOUT",
            "EIO", "ENOSPC", "EMFILE", "SRC_MISSING", "PP_ERR_BEFORE", "PP_ERR_MID", "PP_ERR_AFTER", "RENAME_EIO",
-           "RET_FALSE_BEFORE", "RET_FALSE_MID", "INTERRUPT_MID", "PP_INTERRUPT_MID"}
+           "RET_FALSE_BEFORE", "RET_FALSE_MID", "INTERRUPT_MID", "PP_INTERRUPT_MID", "ERR_STOPITER", "VALIDATE_RAISE"}
 NOTFOUND_KINDS = {"NOTFOUND", "HTTP_404", "SRC_MISSING"}
 
 
@@ -245,7 +245,7 @@ class Oracle:
         # --- classify the request ------------------------------------------------
         rejected = set()
         for (_op, key, verdict) in obs.validator_calls:
-            if key is not None and verdict is not True:
+            if key is not None and verdict is not True and verdict != "raised":
                 rejected.add(key)
         fired = [f for f in obs.fired]
         failing = [f for f in fired if f["kind"] in FAILING]
